@@ -246,6 +246,61 @@ theorem Bad.scaled_shares_weights :
     (w.inplace 1 [.mulS 2, .mulS 2]).abs = [[[0, 1], [2, 2]], [[0, 4], [2, 2]]] ∧ ¬ w.Sep := by
   refine ⟨by decide +kernel, by decide⟩
 
+/-- **Identity arguments** (`scaled(1)`, `scaled(1.0)`, `scaled([1, 1])`, `shifted(0)`, `shifted([0, 0])`, … — every
+spelling of the neutral element, `ArrOp.IsIdentity`): the non-mutating form still returns an *independent copy*.
+In the reference model, where aliasing can be expressed: (1) the result holds the same values as its source,
+(2) no array is shared afterwards (`Sep`), (3) a later in-place edit of the result leaves every earlier object —
+the source included — as it was, and (4) a later in-place edit of the *source* leaves the result as it was.
+(`return self` for an identity argument — the seeded regression C11-8 — violates (2)–(4): it is `Bad.copy`.) -/
+theorem identity_op_returns_independent_copy (w : RWorld) (hs : w.Sep) (i : Nat) (hi : i < w.objs.length)
+    (ops ops2 : List ArrOp)
+    (hid : List.Forall₂ (fun op a => ArrOp.IsIdentity a op) ops (w.objs[i].val w.heap))
+    (hl2 : ops2.length = (w.objs[i]).refs.length) :
+    (w.copied i ops).abs = w.abs ++ [w.objs[i].val w.heap] ∧
+    (w.copied i ops).Sep ∧
+    ((w.copied i ops).inplace w.objs.length ops2).abs =
+      w.abs ++ [List.zipWith (fun op a => op.apply a) ops2 (w.objs[i].val w.heap)] ∧
+    ((w.copied i ops).inplace i ops2).abs =
+      w.abs.set i (List.zipWith (fun op a => op.apply a) ops2 (w.objs[i].val w.heap)) ++ [w.objs[i].val w.heap] := by
+  have hl : ops.length = (w.objs[i]).refs.length := by
+    have := hid.length_eq; simpa [RObj.val] using this
+  have hz := zipWith_apply_identity ops _ hid
+  have habs : (w.copied i ops).abs = w.abs ++ [w.objs[i].val w.heap] := by
+    rw [w.abs_copied hs i hi ops hl, hz]
+  have hs' : (w.copied i ops).Sep := w.Sep_copied hs i ops
+  refine ⟨habs, hs', ?_, ?_⟩
+  · rw [w.abs_copied_inplace hs i hi ops ops2 hl hl2, hz]
+  · have hobjs : (w.copied i ops).objs = w.objs ++ [⟨List.range' w.heap.length (w.objs[i]).refs.length⟩] := by
+      have hget : w.objs.getD i ⟨[]⟩ = w.objs[i] := by simp [List.getD_eq_getElem?_getD, hi]
+      have hget' : w.objs[i]?.getD ⟨[]⟩ = w.objs[i] := by simp [hi]
+      simp [RWorld.copied, RWorld.inplace, RWorld.copy, RWorld.construct, RObj.deepCopy, hget, hget']
+    have hi' : i < (w.copied i ops).objs.length := by rw [hobjs]; simp; omega
+    have hoi : (w.copied i ops).objs[i] = w.objs[i] := by
+      simp only [hobjs]; rw [List.getElem_append_left hi]
+    have hval : (w.copied i ops).objs[i].val (w.copied i ops).heap = w.objs[i].val w.heap := by
+      have h1 : (w.copied i ops).abs[i]'(by simpa [RWorld.abs] using hi') =
+          (w.copied i ops).objs[i].val (w.copied i ops).heap := by simp [RWorld.abs]
+      rw [← h1]
+      have hia : i < w.abs.length := by simpa [RWorld.abs] using hi
+      simp only [habs, List.getElem_append_left hia]
+      simp [RWorld.abs]
+    rw [(w.copied i ops).abs_inplace hs' i hi' ops2 (by rw [hoi]; exact hl2), hval, habs]
+    have hia : i < w.abs.length := by simpa [RWorld.abs] using hi
+    rw [List.set_append_left _ _ hia]
+
+example : (RWorld.new {} [[1, 2], [3]]).Sep ∧
+    List.Forall₂ (fun op a => ArrOp.IsIdentity a op) [.mulS 1, .addV [0]]
+      (((RWorld.new {} [[1, 2], [3]]).objs[0]'(by decide)).val (RWorld.new {} [[1, 2], [3]]).heap) := by
+  refine ⟨by decide, ?_⟩
+  refine List.Forall₂.cons (by simp [ArrOp.IsIdentity]) (List.Forall₂.cons ?_ List.Forall₂.nil)
+  simp [ArrOp.IsIdentity, Heap.read, RWorld.new]
+
+/-- the same history with a result that *is* its source (`return self`): the edit of the "result" changes the source -/
+theorem Bad.identity_returns_self :
+    let w : RWorld := Bad.copy (RWorld.new {} [[0, 1], [0, 2]]) 0
+    (w.inplace 1 [.mulS 2, .mulS 2]).abs = [[[0, 2], [0, 4]], [[0, 2], [0, 4]]] ∧ ¬ w.Sep := by
+  refine ⟨by decide +kernel, by decide⟩
+
 /-! ## Regular grids: covered area, sub/supersampling, focal grids -/
 
 /-- **The weights of a regular grid sum to the covered area** `Π dims_i·|δ_i|` (either sign of `δ`). -/
